@@ -284,6 +284,9 @@ func isHelper(f *ssa.Function) bool {
 	case "main", "init":
 		return false
 	}
+	if isWriteAllFunc(f) {
+		return false /* stands for one write, see writeall.go */
+	}
 	name := f.String()
 	if ref, ok := renameImage[f]; ok {
 		name = ref /* the reference function, under another name */
